@@ -264,6 +264,76 @@ Section ChainFacts.
   Qed.
 End ChainFacts.
 
+(** ** Original maps with sourceless segments *)
+Section ChainOptFacts.
+  Context {B : Type}.
+
+  Definition resolves_src (m2 : list (@token (option B))) (t : @token pos) : bool :=
+    match lookup m2 (snd t) with Some (_, Some _) => true | _ => false end.
+
+  Definition unwrap_tok (o : option (@token (option B))) : option (@token B) :=
+    match o with Some (k, Some b) => Some (k, b) | _ => None end.
+
+  Lemma keep_sourced_app (a b : list (@token (option B))) : keep_sourced (a ++ b) = keep_sourced a ++ keep_sourced b.
+  Proof. unfold keep_sourced. apply flat_map_app. Qed.
+
+  (** On a list whose tokens all carry a source, dropping the sourceless ones commutes with the lookup. *)
+  Lemma lookup_keep_sourced_from (m : list (@token (option B))) p : forall acc,
+    (forall t, In t m -> exists b, snd t = Some b) ->
+    (forall a, acc = Some a -> exists b, snd a = Some b) ->
+    lookup_from (unwrap_tok acc) (keep_sourced m) p = unwrap_tok (lookup_from acc m p).
+  Proof.
+    induction m as [|t m IH]; intros acc Hall Hacc; [reflexivity|].
+    destruct (Hall t (or_introl eq_refl)) as (b & Hb).
+    destruct t as [k pl]. cbn [snd] in Hb. subst pl.
+    cbn [keep_sourced flat_map snd fst app]. fold (keep_sourced m). cbn [lookup_from fst].
+    destruct (ple k p).
+    - apply (IH (Some (k, Some b))); [intros t' Ht'; apply Hall; right; exact Ht' | intros a Ha; inversion Ha; subst; cbn [snd]; eauto].
+    - apply IH; [intros t' Ht'; apply Hall; right; exact Ht' | exact Hacc].
+  Qed.
+
+  Lemma chain_opt_drops (m1 : list (@token pos)) (m2 : list (@token (option B))) :
+    chain_opt m1 m2 = chain_opt (filter (resolves_src m2) m1) m2.
+  Proof.
+    unfold chain_opt. induction m1 as [|t m1 IH]; [reflexivity|].
+    cbn [chain flat_map filter]. fold (chain m1 m2). rewrite keep_sourced_app. unfold resolves_src at 1.
+    destruct (lookup m2 (snd t)) as [[k [b|]]|] eqn:E.
+    - cbn [chain flat_map]. rewrite E. fold (chain (filter (resolves_src m2) m1) m2).
+      rewrite keep_sourced_app. rewrite IH. reflexivity.
+    - cbn [keep_sourced flat_map snd app]. exact IH.
+    - cbn [keep_sourced flat_map app]. exact IH.
+  Qed.
+
+  (** The chained map of an original map with sourceless segments: looking a position up in it is the
+      two-step resolution over the rewrite tokens that reach a sourced original token. *)
+  Theorem chain_opt_lookup (m1 : list (@token pos)) (m2 : list (@token (option B))) p :
+    lookup (chain_opt m1 m2) p = unwrap_tok (resolve2 (filter (resolves_src m2) m1) m2 p).
+  Proof.
+    rewrite chain_opt_drops. set (m1' := filter (resolves_src m2) m1).
+    assert (R : forall t, In t m1' -> resolves m2 t = true).
+    { intros t Ht. apply filter_In in Ht. destruct Ht as [_ Ht]. unfold resolves_src in Ht. unfold resolves.
+      destruct (lookup m2 (snd t)); [reflexivity | discriminate]. }
+    rewrite <- (chain_is_composition m1' m2 p R).
+    unfold chain_opt, lookup.
+    apply (lookup_keep_sourced_from (chain m1' m2) p None).
+    - intros t Ht. apply chain_keys in Ht. destruct Ht as (t1 & H1 & _ & H2).
+      apply filter_In in H1. destruct H1 as [_ H1]. unfold resolves_src in H1. unfold retarget in H2.
+      destruct (lookup m2 (snd t1)) as [[k [b|]]|]; try discriminate. inversion H2; subst. cbn. eauto.
+    - intros a Ha. discriminate.
+  Qed.
+
+  (** Nothing is invented: every token of the chained map is a rewrite token retargeted to the sourced
+      original token its position resolves to. *)
+  Theorem chain_opt_keys (m1 : list (@token pos)) (m2 : list (@token (option B))) :
+    forall k b, In (k, b) (chain_opt m1 m2) ->
+      exists t1, In t1 m1 /\ k = fst t1 /\ retarget m2 t1 = Some (k, Some b).
+  Proof.
+    intros k b H. unfold chain_opt, keep_sourced in H. apply in_flat_map in H. destruct H as (t & Ht & H).
+    destruct t as [k' [b'|]]; cbn [snd fst] in H; [|destruct H]. destruct H as [H|[]]. inversion H; subst.
+    apply chain_keys in Ht. destruct Ht as (t1 & H1 & H2 & H3). exists t1. cbn [fst] in H2. subst. auto.
+  Qed.
+End ChainOptFacts.
+
 (** ** VLQ round trip *)
 Lemma undigits_digits : forall fuel n rest,
   (n < 2 ^ N.of_nat fuel)%N -> undigits (digits fuel n ++ rest) = Some (n, rest).
